@@ -163,6 +163,43 @@ impl Check for C09Check {
 
     fn generate(&self, seed: u64, index: u64, tier: Tier) -> Case {
         let mut st = streams(seed, "C09", index);
+        if index % 16 == 7 {
+            // Consumer-versus-search family: one clause answers at once, another runs k trivial
+            // goals and then starts a committed-choice operator whose head never answers — a
+            // single engine step that does not return. The search itself yields the answers
+            // before it takes that step; the consumer must hand them over without stepping
+            // further than the search needed.
+            let w = &mut st.workload;
+            let k = w.below(9) as u32;
+            let mut late: Vec<G> = (0..k).map(|i| G::Eq(T::V(60 + i), T::I(i as i64))).collect();
+            let stall = G::Leaf(Leaf {
+                id: 710,
+                target: T::V(0),
+                answers: vec![],
+                shape: Shape::Chain,
+                tail: Tail::Stall,
+                end_latency: 0,
+            });
+            late.push(match w.below(3) {
+                0 => G::Onceo(vec![stall]),
+                1 => G::Conda(vec![vec![stall, G::Succeed], vec![G::Eq(T::V(0), T::I(8103))]]),
+                _ => G::Condu(vec![vec![stall, G::Succeed], vec![G::Eq(T::V(0), T::I(8103))]]),
+            });
+            let late_clause = vec![G::Fresh((60..60 + k.max(1)).collect(), late)];
+            let mut clauses = vec![vec![G::Eq(T::V(0), T::I(8101))]];
+            if w.chance(1, 2) {
+                clauses.push(vec![G::Call(Rel::Member, vec![T::V(0), T::list(vec![T::I(8104), T::I(8105)])])]);
+            }
+            let at = w.below(clauses.len() + 1);
+            clauses.insert(at, late_clause);
+            return Case {
+                property: "C09".into(),
+                oracle: "consumer-vs-search".into(),
+                program: Program { nq: 1, defs: vec![], body: vec![G::Conde(clauses)] },
+                cfg: SimCfg::exact(200_000),
+                extra: json!({"schedule_seeds": [], "script": []}),
+            };
+        }
         let kind = st.workload.below(20);
         let (program, family) = if kind < 6 {
             let mut o = Opts::finite_small();
@@ -284,6 +321,7 @@ impl Check for C09Check {
             && !case.program.any(|g| matches!(g, G::Project(..) | G::Prim(..)))
             && match case.oracle.as_str() {
                 "infinite-producer" => refint::is_infinite(&case.program),
+                "consumer-vs-search" => true,
                 "search" | "tree" | "fd" => !refint::is_infinite(&case.program),
                 _ => false,
             }
@@ -314,6 +352,51 @@ impl Check for C09Check {
     fn run(&self, case: &Case) -> CaseResult {
         let mut facts = Facts::default();
         let p = &case.program;
+        if case.oracle == "consumer-vs-search" {
+            // the search (engine steps only) against the consumer (Solver::next)
+            let mut cfg = case.cfg.clone();
+            cfg.quanta_budget = 20_000;
+            cfg.work_cap = 400_000;
+            let (at, _end, stats) = crate::statedrv::raw_search(p, &cfg, 3);
+            facts.stats.push(stats);
+            if at.is_empty() {
+                return CaseResult { verdict: Verdict::Inconclusive("the search yields no answer before it stalls".into()), facts };
+            }
+            let n = at.len();
+            let need = *at.last().unwrap();
+            let mut cfg2 = cfg.clone();
+            cfg2.quanta_budget = need.saturating_mul(4) + 256;
+            let run = run_program(p, &cfg2, n, false);
+            facts.stats.push(run.stats.clone());
+            facts.trace_hash = crate::rng::mix(&[run.stats.trace_hash, n as u64, need]);
+            if let End::Panic(pi) = &run.end {
+                return CaseResult {
+                    verdict: Verdict::Violation { class: format!("panic@{}", pi.location), detail: pi.message.clone() },
+                    facts,
+                };
+            }
+            facts.answers_compared += run.answers.len() as u64;
+            if run.answers.len() < n {
+                return CaseResult {
+                    verdict: Verdict::Violation {
+                        class: "lazy-prefix-not-delivered".into(),
+                        detail: format!(
+                            "the search alone (engine steps) matures {} answer(s) within {} quanta, but the iterator delivered {} of them ({:?} after {} quanta, {} steps): the consumer stepped past what the answers needed",
+                            n,
+                            need,
+                            run.answers.len(),
+                            run.end,
+                            run.stats.quanta,
+                            run.stats.work
+                        ),
+                    },
+                    facts,
+                };
+            }
+            facts.nontrivial = true;
+            *facts.faults.entry("stall").or_insert(0) += 1;
+            return CaseResult { verdict: Verdict::Pass, facts };
+        }
         let infinite = case.oracle == "infinite-producer";
         let take = if infinite { PREFIX } else { 100_000 };
         let base = run_program(p, &case.cfg, take, false);
